@@ -210,6 +210,12 @@ fn float_ops<Rm: ModeTag, const B: Word>(m: &mut Mon, r: &mut Rng) {
         let wflag2 = Flag::of(&wp);
         let wv2 = wp.value();
         ensure!(wv2.precision() == k, "precision", "with_precision({}) of an unlimited-precision value has precision {}", k, wv2.precision());
+        // the rounding functions do not depend on the precision the value carries: unlimited and excess precision
+        for (what, g) in [("unlimited", unl.clone()), ("excess", f.clone().with_precision(p + 7).value())] {
+            let r4 = catch(|| (g.trunc(), g.floor(), g.ceil(), g.round(), g.fract(), g.to_int().value())).or_else(|pn| fail("unexpected_panic", format!("rounding a value of {} precision: {}", what, pn)))?;
+            ensure!(val(&r4.0) == tr && val(&r4.1) == fl && val(&r4.2) == ce && val(&r4.3) == rd && val(&r4.4) == &x - &tr && int_of(&r4.5) == want, "value",
+                "at {} precision: trunc {} floor {} ceil {} round {} to_int {} (want {} {} {} {} {})", what, r4.0.repr().significand(), r4.1.repr().significand(), r4.2.repr().significand(), r4.3.repr().significand(), r4.5, tr, fl, ce, rd, want);
+        }
         ensure!(q_of_repr(wv2.repr()) == q_of_parts(&u, ue, base) && wflag2 == wflag, "value", "with_precision({}) of an unlimited-precision value = {}*{}^{} ({:?}) but from precision {} it is {}*{}^{} ({:?})", k, wv2.repr().significand(), base, wv2.repr().exponent(), wflag2, p, u, base, ue, wflag);
         Ok(())
     });
